@@ -338,6 +338,7 @@ func doCpu(repo, outDir string) {
 			b.WriteString(leanOpTable("opTable6502", t1))
 			b.WriteString("/-- `res.opCodes[..] = ..` assignments of cpu.New6502 that apply to Model65C02 -/\n")
 			b.WriteString(leanOpTable("opTable65C02", t2))
+			b.WriteString("def opTable : CpuModel → Byte → Option H\n  | .m6502 => opTable6502\n  | .m65C02 => opTable65C02\n\n")
 			b.WriteString("end Verif.Generated\n")
 			writeIfChanged(filepath.Join(outDir, "OpTable.lean"), b.String())
 			out.Info["cpu.optable.count6502"] = strconv.Itoa(len(t1))
@@ -366,8 +367,9 @@ func doCpu(repo, outDir string) {
 	if len(problems) == 0 {
 		var b strings.Builder
 		b.WriteString(header)
-		b.WriteString("import Verif.Basic.Attr\n\nnamespace Verif.Generated\n\n")
-		b.WriteString("/-! literal part of every `return <int> [+ extra]*, <bool>` in package cpu, in source order -/\n\n")
+		b.WriteString("import Verif.Impl.Consts\n\nnamespace Verif.Generated\nopen Verif\n\n")
+		b.WriteString("/-- literal part of every `return <int> [+ extra]*, <bool>` in package cpu, in source order -/\n")
+		b.WriteString("def consts : CycleConsts where\n")
 		names := []string{}
 		for k := range rets {
 			names = append(names, k)
@@ -379,7 +381,7 @@ func doCpu(repo, outDir string) {
 				if len(r.extras) > 0 {
 					ex = "  -- + " + strings.Join(r.extras, " + ")
 				}
-				fmt.Fprintf(&b, "@[cyc] def ret_%s_%d : Nat := %d%s\n", n, i, r.lit, ex)
+				fmt.Fprintf(&b, "  %s_%d := %d%s\n", n, i, r.lit, ex)
 			}
 		}
 		b.WriteString("\nend Verif.Generated\n")
